@@ -61,7 +61,6 @@ Low(s) == [i \in 1..Len(s) |-> LowC(s[i])]
 
 \* p occurs in s (both already in one case); the empty string occurs in every string
 IsSubstr(p, s) == \E i \in 0..(Len(s) - Len(p)) : \A j \in 1..Len(p) : s[i + j] = p[j]
-ContainsCI(s, p) == IsSubstr(Low(p), Low(s))
 
 RECURSIVE Str(_)
 Str(s) == IF s = <<>> THEN "" ELSE Head(s) \o Str(Tail(s))
@@ -146,11 +145,11 @@ SumLen(h, i) == IF i > Len(h) THEN 0 ELSE Len(Line(h[i])) + 2 + SumLen(h, i + 1)
 BaseLen(m) == IdLineLen + SumLen(Hdr(m), 1) + 2 + Len(m.body) + 2
 BodyLine(m) == m.body \o Dots(m.size - BaseLen(m))      \* padded so that the size is exactly m.size
 
-\* the header field of that name (field names are case-insensitive); first occurrence
-Field(m, name) ==
-  LET h == Hdr(m)
-      hit == {i \in 1..Len(h) : Low(h[i].n) = Low(name)}
-  IN IF hit = {} THEN None ELSE Some(h[CHOOSE i \in hit : \A j \in hit : i <= j].v)
+\* the (lower-cased) header field of that name (field names are case-insensitive); first occurrence
+Field(d, name) ==
+  LET ln == Low(name)
+      hit == {i \in 1..Len(d.hdr) : d.hdr[i].n = ln}
+  IN IF hit = {} THEN None ELSE Some(d.hdr[CHOOSE i \in hit : \A j \in hit : i <= j].v)
 
 -----------------------------------------------------------------------------
 (* the boxes *)
@@ -185,6 +184,14 @@ BoxData == [b \in AllBoxNames |->
     [] b = "BS" -> BoxB(2)     \* the \Deleted message 2 of 4 expunged by another session
     [] b = "E" -> <<>>]
 View(b) == BoxData[b]
+
+\* lower-cased text of every message, computed once (TLC evaluates constant definitions once)
+LowData == [b \in AllBoxNames |-> [i \in 1..Len(BoxData[b]) |->
+  LET m == BoxData[b][i]
+      h == Hdr(m)
+  IN [hdr |-> [j \in 1..Len(h) |-> [n |-> Low(h[j].n), v |-> Low(h[j].v), line |-> Low(Line(h[j]))]],
+      body |-> Low(BodyLine(m)),
+      kws |-> {Low(kw) : kw \in m.kws}]]]
 
 ASSUME \A b \in AllBoxNames : \A i \in 1..Len(View(b)) :
          /\ View(b)[i].size >= BaseLen(View(b)[i])
@@ -293,19 +300,24 @@ InUidSet(set, uid, n) ==
         b == UidVal(set[j].b, n)
     IN uid >= Min(a, b) /\ uid <= Max(a, b)
 
-FieldHas(m, name, p) == LET e == Field(m, name) IN e.has /\ ContainsCI(e.v, p)
+\* d = LowData of the message: both sides of every text comparison are lower case,
+\* which is what "case-insensitive" means
+FieldHas(d, name, p) == LET e == Field(d, name) IN e.has /\ IsSubstr(Low(p), e.v)
 
 \* TEXT: the pattern occurs in a header line or in the body (patterns never contain CRLF)
-TextHas(m, p) ==
-  \/ \E i \in 1..Len(Hdr(m)) : ContainsCI(Line(Hdr(m)[i]), p)
-  \/ ContainsCI(BodyLine(m), p)
+TextHas(d, p) ==
+  LET lp == Low(p) IN
+  \/ \E i \in 1..Len(d.hdr) : IsSubstr(lp, d.hdr[i].line)
+  \/ IsSubstr(lp, d.body)
 
-HasKw(m, p) == \E kw \in m.kws : Low(kw) = Low(p)
+HasKw(d, p) == Low(p) \in d.kws
 
-\* does key tree t hold for the message at position i of view v (n = Len(v))
+\* does key tree t hold for the message at position i of the view of box b
 RECURSIVE Holds(_, _, _)
-Holds(t, i, v) ==
-  LET m == v[i]
+Holds(t, i, b) ==
+  LET v == BoxData[b]
+      m == v[i]
+      d == LowData[b][i]
       n == Len(v)
   IN CASE t.k = "ALL" -> TRUE
        [] t.k = "ANSWERED" -> "Answered" \in m.sys
@@ -321,8 +333,8 @@ Holds(t, i, v) ==
        [] t.k = "RECENT" -> m.recent
        [] t.k = "OLD" -> ~m.recent
        [] t.k = "NEW" -> m.recent /\ "Seen" \notin m.sys
-       [] t.k = "KEYWORD" -> HasKw(m, t.s)
-       [] t.k = "UNKEYWORD" -> ~HasKw(m, t.s)
+       [] t.k = "KEYWORD" -> HasKw(d, t.s)
+       [] t.k = "UNKEYWORD" -> ~HasKw(d, t.s)
        [] t.k = "BEFORE" -> m.idate < t.n
        [] t.k = "ON" -> m.idate = t.n
        [] t.k = "SINCE" -> m.idate >= t.n
@@ -331,19 +343,19 @@ Holds(t, i, v) ==
        [] t.k = "SENTSINCE" -> m.sdate >= t.n
        [] t.k = "LARGER" -> m.size > t.n
        [] t.k = "SMALLER" -> m.size < t.n
-       [] t.k = "FROM" -> FieldHas(m, hFrom, t.s)
-       [] t.k = "TO" -> FieldHas(m, hTo, t.s)
-       [] t.k = "CC" -> FieldHas(m, hCc, t.s)
-       [] t.k = "BCC" -> FieldHas(m, hBcc, t.s)
-       [] t.k = "SUBJECT" -> FieldHas(m, hSubject, t.s)
-       [] t.k = "HEADER" -> FieldHas(m, t.f, t.s)     \* "" matches every message that HAS the field
-       [] t.k = "BODY" -> ContainsCI(BodyLine(m), t.s)
-       [] t.k = "TEXT" -> TextHas(m, t.s)
+       [] t.k = "FROM" -> FieldHas(d, hFrom, t.s)
+       [] t.k = "TO" -> FieldHas(d, hTo, t.s)
+       [] t.k = "CC" -> FieldHas(d, hCc, t.s)
+       [] t.k = "BCC" -> FieldHas(d, hBcc, t.s)
+       [] t.k = "SUBJECT" -> FieldHas(d, hSubject, t.s)
+       [] t.k = "HEADER" -> FieldHas(d, t.f, t.s)     \* "" matches every message that HAS the field
+       [] t.k = "BODY" -> IsSubstr(Low(t.s), d.body)
+       [] t.k = "TEXT" -> TextHas(d, t.s)
        [] t.k = "UID" -> InUidSet(t.set, m.uid, n)
        [] t.k = "SEQ" -> InSeqSet(t.set, i, n)
-       [] t.k = "NOT" -> ~Holds(t.sub[1], i, v)
-       [] t.k = "OR" -> Holds(t.sub[1], i, v) \/ Holds(t.sub[2], i, v)
-       [] t.k = "LIST" -> \A j \in 1..Len(t.sub) : Holds(t.sub[j], i, v)
+       [] t.k = "NOT" -> ~Holds(t.sub[1], i, b)
+       [] t.k = "OR" -> Holds(t.sub[1], i, b) \/ Holds(t.sub[2], i, b)
+       [] t.k = "LIST" -> \A j \in 1..Len(t.sub) : Holds(t.sub[j], i, b)
 
 \* a sequence-set key names a message that the view does not have
 RECURSIVE Beyond(_, _)
@@ -353,10 +365,11 @@ Beyond(t, n) ==
 
 Ascending(S, n) == SelectSeq([i \in 1..n |-> i], LAMBDA i : i \in S)
 
-\* juxtaposed keys ks over view v
-Result(ks, v) ==
-  LET n == Len(v)
-      P == {i \in 1..n : \A j \in 1..Len(ks) : Holds(ks[j], i, v)}
+\* juxtaposed keys ks over the view of box b
+Result(ks, b) ==
+  LET v == BoxData[b]
+      n == Len(v)
+      P == {i \in 1..n : \A j \in 1..Len(ks) : Holds(ks[j], i, b)}
       sq == Ascending(P, n)
   IN IF \E j \in 1..Len(ks) : Beyond(ks[j], n)
      THEN [res |-> "BAD", pos |-> {}, seqs |-> <<>>, uids |-> <<>>]
@@ -369,8 +382,8 @@ Spec == Init /\ [][Next]_vars
 
 V == View(box)
 N == Len(V)
-Expected == Result(keys, V)
-Pos(ks) == Result(ks, V).pos
+Expected == Result(keys, box)
+Pos(ks) == Result(ks, box).pos
 
 (* printing *)
 RECURSIVE Pr(_)
@@ -392,8 +405,9 @@ PrMsg(m) ==
 PrintCase ==
   Emit => IF keys = <<>>
           THEN PrintT(ToJson([def |-> box, idlen |-> IdLineLen, msgs |-> [i \in 1..N |-> PrMsg(V[i])]]))
-          ELSE PrintT(ToJson([box |-> box, keys |-> [j \in 1..Len(keys) |-> Pr(keys[j])],
-                              exp |-> [res |-> Expected.res, seqs |-> Expected.seqs, uids |-> Expected.uids]]))
+          ELSE LET e == Expected IN
+               PrintT(ToJson([box |-> box, keys |-> [j \in 1..Len(keys) |-> Pr(keys[j])],
+                              exp |-> [res |-> e.res, seqs |-> e.seqs, uids |-> e.uids]]))
 
 -----------------------------------------------------------------------------
 (* Laws of the evaluation function (the design), checked on every case *)
@@ -404,24 +418,28 @@ All == 1..N
 \* results lie in the view, ascending without duplicates; UID SEARCH names the same messages
 InsideView == Expected.pos \subseteq All
 AscendingNoDup ==
-  /\ \A i, j \in 1..Len(Expected.seqs) : i < j => Expected.seqs[i] < Expected.seqs[j]
-  /\ {Expected.seqs[i] : i \in 1..Len(Expected.seqs)} = Expected.pos
+  LET e == Expected IN
+  /\ \A i \in 1..(Len(e.seqs) - 1) : e.seqs[i] < e.seqs[i + 1]
+  /\ {e.seqs[i] : i \in 1..Len(e.seqs)} = e.pos
 UidsSameMessages ==
-  /\ Len(Expected.uids) = Len(Expected.seqs)
-  /\ \A i \in 1..Len(Expected.seqs) : Expected.uids[i] = UidSeq[Expected.seqs[i]]
+  LET e == Expected IN
+  /\ Len(e.uids) = Len(e.seqs)
+  /\ \A i \in 1..Len(e.seqs) : e.uids[i] = UidSeq[e.seqs[i]]
 
 \* NOT is the complement within the view (a gone message is still part of it); NOT NOT = id
 NotIsComplement ==
-  (Ok /\ Len(keys) = 1) => /\ Pos(<<Not(keys[1])>>) = All \ Expected.pos
-                           /\ Pos(<<Not(Not(keys[1]))>>) = Expected.pos
+  LET e == Expected IN
+  (keys # <<>> /\ e.res = "OK" /\ Len(keys) = 1) => /\ Pos(<<Not(keys[1])>>) = All \ e.pos
+                                                    /\ Pos(<<Not(Not(keys[1]))>>) = e.pos
 
 \* OR is the union, commutative; De Morgan
 OrIsUnion ==
-  (Ok /\ Len(keys) = 1 /\ keys[1].k = "OR") =>
+  (Len(keys) = 1 /\ keys[1].k = "OR" /\ Ok) =>
      LET a == keys[1].sub[1]
          b == keys[1].sub[2]
-     IN /\ Expected.pos = Pos(<<a>>) \cup Pos(<<b>>)
-        /\ Expected.pos = Pos(<<Or(b, a)>>)
+         e == Expected
+     IN /\ e.pos = Pos(<<a>>) \cup Pos(<<b>>)
+        /\ e.pos = Pos(<<Or(b, a)>>)
         /\ Pos(<<Not(keys[1])>>) = Pos(<<Not(a), Not(b)>>)
         /\ Pos(<<Not(keys[1])>>) = Pos(<<List(<<Not(a), Not(b)>>)>>)
 
@@ -430,12 +448,13 @@ Inter(ks, j) == IF j > Len(ks) THEN All ELSE Pos(<<ks[j]>>) \cap Inter(ks, j + 1
 
 \* a parenthesised list and juxtaposition are the intersection
 ListIsIntersection ==
-  /\ (Ok /\ Len(keys) = 1 /\ keys[1].k = "LIST") =>
-        /\ Expected.pos = Inter(keys[1].sub, 1)
-        /\ Expected.pos = Pos(keys[1].sub)
-  /\ (Ok /\ Len(keys) > 1) =>
-        /\ Expected.pos = Inter(keys, 1)
-        /\ Expected.pos = Pos(<<List(keys)>>)
+  LET e == Expected IN
+  /\ (Len(keys) = 1 /\ keys[1].k = "LIST" /\ e.res = "OK") =>
+        /\ e.pos = Inter(keys[1].sub, 1)
+        /\ e.pos = Pos(keys[1].sub)
+  /\ (Len(keys) > 1 /\ e.res = "OK") =>
+        /\ e.pos = Inter(keys, 1)
+        /\ e.pos = Pos(<<List(keys)>>)
 
 \* BAD exactly when some sequence-set leaf names a number above the view
 RECURSIVE Leaves(_)
